@@ -429,6 +429,60 @@ class Inliner:
             for n in out:
                 ast.fix_missing_locations(n)
             return out
+        # several returns, all in tail position of nested ifs (guard style): restructure into if / else, every return
+        # becoming an assignment of the result (no one-shot loop)
+        body_names = {n.id for x in body for n in ast.walk(x) if isinstance(n, ast.Name)}
+        tailed = _tailify(copy.deepcopy(body))
+        if tailed is not None:
+            def deliver(val):
+                val = val if val is not None else ast.Constant(value=None)
+                if target is None:
+                    if is_ret:
+                        return [ast.Return(value=val)]
+                    return [] if isinstance(val, (ast.Name, ast.Constant)) else [ast.Expr(value=val)]
+                if (
+                    isinstance(target, (ast.Tuple, ast.List))
+                    and isinstance(val, ast.Tuple)
+                    and len(target.elts) == len(val.elts)
+                    and all(isinstance(t, ast.Name) for t in target.elts)
+                    and len({t.id for t in target.elts}) == len(target.elts)
+                    and not ({t.id for t in target.elts} & {n.id for v in val.elts for n in ast.walk(v) if isinstance(n, ast.Name)})
+                ):
+                    return [ast.Assign(targets=[copy.deepcopy(t)], value=v, lineno=s.lineno) for t, v in zip(target.elts, val.elts)]
+                return [ast.Assign(targets=[copy.deepcopy(target)], value=val, lineno=s.lineno)]
+
+            def fill(stmts):
+                out_ = []
+                for x in stmts:
+                    if isinstance(x, ast.Return):
+                        out_.extend(deliver(x.value))
+                        return out_, True
+                    if isinstance(x, ast.If) and any(isinstance(n, ast.Return) for n in ast.walk(x)):
+                        b, _ = fill(x.body)
+                        o, _ = fill(x.orelse)
+                        x.body = b or [ast.Pass()]
+                        x.orelse = o
+                        out_.append(x)
+                        continue
+                    out_.append(x)
+                return out_, False
+
+            total = _all_paths_return(tailed)
+            new_body, ended = fill(tailed)
+            if not total and (target is not None or is_ret):
+                new_body = None  # a path falls off the end: keep the general form below
+            if new_body is not None:
+                # the caller's names that receive the result must not be touched by the helper body itself
+                tn = {n.id for n in ast.walk(target) if isinstance(n, ast.Name)} if target is not None else set()
+                if not (tn & body_names):
+                    new_body = self.block(new_body, stack + (g.qname,), depth - 1)
+                    out = pre + new_body
+                    if not out:
+                        out = [ast.Pass()]
+                    for n in out:
+                        ast.copy_location(n, s) if not hasattr(n, 'lineno') else None
+                        ast.fix_missing_locations(n)
+                    return out
         try:
             body = [y for x in body for y in _aslist(R().visit(x))]
         except _NoInline:
@@ -446,6 +500,63 @@ class Inliner:
         for n in out:
             ast.fix_missing_locations(n)
         return out
+
+
+def _ends_in_return(stmts):
+    if not stmts:
+        return False
+    last = stmts[-1]
+    if isinstance(last, ast.Return):
+        return True
+    if isinstance(last, ast.If):
+        return _ends_in_return(last.body) and _ends_in_return(last.orelse)
+    return False
+
+
+def _all_paths_return(stmts):
+    return _ends_in_return(stmts)
+
+
+def _tailify(stmts):
+    """statements of a helper body rewritten so that every `return` is the last statement of its block and those blocks
+    are arms of nested ifs in tail position (statements after `if c: ...; return` move into the else arm); None when a
+    return sits inside a loop / try / with (then the general splice is used).  Works on the copies it is given."""
+    out = []
+    for i, x in enumerate(stmts):
+        if isinstance(x, ast.Return):
+            out.append(x)
+            return out
+        has_ret = any(isinstance(n, ast.Return) for n in ast.walk(x))
+        if not has_ret:
+            out.append(x)
+            continue
+        if not isinstance(x, ast.If):
+            return None
+        rest = list(stmts[i + 1:])
+        b_end, o_end = _ends_in_return(x.body), _ends_in_return(x.orelse)
+        if b_end and o_end:
+            body, orelse = _tailify(x.body), _tailify(x.orelse)
+        elif b_end:
+            body, orelse = _tailify(x.body), _tailify(list(x.orelse) + rest)
+            rest = []
+        elif o_end:
+            body, orelse = _tailify(list(x.body) + rest), _tailify(x.orelse)
+            rest = []
+        else:
+            # a return somewhere inside an arm that goes on: both arms continue with the rest
+            body, orelse = _tailify(list(x.body) + copy.deepcopy(rest)), _tailify(list(x.orelse) + rest)
+            rest = []
+        if body is None or orelse is None:
+            return None
+        x.body, x.orelse = body or [ast.Pass()], orelse
+        out.append(x)
+        if rest:
+            more = _tailify(rest)
+            if more is None:
+                return None
+            out.extend(more)
+        return out
+    return out
 
 
 def _pure_prefix(e):
